@@ -212,7 +212,7 @@ def shards(tier):
         plan = [("bin_f64", 18, 16), ("bin_i32", 16, 8), ("bin_u32", 12, 1), ("ter_i64", 10, 4), ("ter_nan_f32", 9, 2),
                 ("ter_f64", 9, 2), ("ter_nan_f64", 9, 2)]
     else:
-        nrand, per, side = 8, 500, 24
+        nrand, per, side = 8, 800, 24
         plan = [("bin_f64", 12, 2), ("bin_i32", 12, 2), ("ter_i64", 9, 4), ("ter_nan_f32", 9, 4)]
     lay = ["F", "view", "ro"]
     for i in range(nrand):
